@@ -19,6 +19,37 @@ HOOKS = {
 }
 
 PROPS = {
+    "C09": {
+        "bin": "c09",
+        "explanation": "Mode O, configuration enumeration x symbolic values: inside one execution (decisions on identical conditions memoised) the real Interp1D / Interp2D is queried through interp_array, interp_array_into, "
+                       "interp, interp_into and interp_scalar for query dimension types Ix0..Ix3 (thorough Ix4) and IxDyn of rank 0..2, empty query axes and empty trailing axes, data Ix1..Ix6 and IxDyn. Every data value is a "
+                       "symbol, so interp_array(q)[i] = interp(q[i]), into = allocating, scalar = interp are decided for all values (term identity, else z3); the result shape is compared with query shape ++ trailing shape; "
+                       "with symbolic axes and queries (batches <= 2) all entry points fail for exactly the same inputs.",
+        "trusted_base": O_TRUST + ["harness/src/api.rs: macro-stamped forwarding to every (data dimension, query dimension) instantiation of the public API"],
+        "technique": "symbolic execution of all entry points in one execution over enumerated dimension-type configurations; equality of results by term identity / z3 QF_FP+UF; order-abstraction pruning",
+        "level_text": "Bounded symbolic model checking: the element/query correspondence and the agreement of the five entry points hold for every data value in each of ~120 (thorough ~400) dimension-type / shape configurations incl. the general path for dynamic 1-d queries, zero-length axes and rank > 6 results.",
+        "level_note": "Trusted: engine S, the forwarding layer api.rs, z3. Configurations are enumerated (finite, stated), values are symbolic. Static query ranks above 4 and axis lengths above 3 are outside.",
+    },
+    "C13": {
+        "bin": "c13",
+        "explanation": "Mode O with symbolic data: for each role (data, x, y, query, output buffer) the array is stored in Fortran order, as an every-2nd-element window of a larger array filled with junk symbols, reversed, "
+                       "with permuted storage axes or as an offset window, holding the same logical symbols as the all-C-order baseline; both are run inside one execution through every entry point and must give the same "
+                       "outcome kind, shape and result terms (which also shows independence of the junk cells).",
+        "trusted_base": O_TRUST + ["harness/src/layout.rs (unit-tested: every layout holds the same logical contents)", "harness/src/api.rs forwarding layer"],
+        "technique": "symbolic execution over enumerated memory layouts with symbolic contents and junk cells; equality of outcomes and result terms (term identity / z3)",
+        "level_text": "Bounded symbolic model checking of layout independence for all data values over 5 non-standard layouts x 5 roles x query ranks 0..2 and dynamic (thorough ..3) x 4 (thorough 8) data configurations x all entry points.",
+        "level_note": "Trusted: engine S, layout.rs, api.rs. Found the 'incompatible memory layout' panic of the general path (repaired by a fix: commit). Shared storage is covered by C19.",
+    },
+    "C14": {
+        "bin": "c14",
+        "explanation": "Mode O with symbolic data and poison: (a) the output buffer is a window into a larger array whose every cell (inside and outside) starts as a distinct poison symbol; after Ok every window cell is the "
+                       "allocating variant's term (so it was overwritten) and every outside cell is still its own poison symbol; (b) every wrongly shaped buffer (each axis +-1, trailing / leading axes permuted, equal element "
+                       "count with another shape, wrong dynamic rank) and x/y query arrays of different shapes must have no Ok path.",
+        "trusted_base": O_TRUST + ["harness/src/layout.rs", "harness/src/api.rs forwarding layer"],
+        "technique": "symbolic execution with poison symbols in and around the caller's buffer; overwritten / untouched / equal-to-allocating as term identities; enumeration of wrong shapes",
+        "level_text": "Bounded symbolic model checking: exact-fill and rejection are decided for all data values over ~470 (thorough more) scenarios covering Interp1D and Interp2D, fast and general path, static and dynamic ranks, empty queries.",
+        "level_note": "Trusted: engine S, layout.rs, api.rs. Found three genuine defects (general path accepted wrong shapes / rejected strided buffers; empty query on the fast path), all repaired by fix: commits. Wrong static ranks cannot be expressed (type system).",
+    },
     "C08": {
         "bin": "c08",
         "explanation": "Mode O two-copy checking inside one execution: interpolator A and interpolator B share the axis, the queries and lane j's data and boundary entry while every other lane's data symbols and boundary kinds / "
